@@ -109,7 +109,7 @@ def region_of_text(opnd):
 
 def cases_c01(run, thorough):
     rnd = random.Random(run.seed * 613 + 11)
-    sample = None if thorough else 0.06
+    sample = None if thorough else 0.3
     cases = list(gen_asm.stmt_matrix(rnd, sample=sample))
     cases += list(gen_asm.special_matrix(rnd))
     sym = list(gen_asm.symbol_matrix(rnd))
